@@ -4,7 +4,7 @@ import re
 
 from ..core import AnalysisError
 from .. import cfront
-from ..cfront import strip, walk, toks, render, qtype, is_assign, line_of
+from ..cfront import strip, walk, toks, render, qtype, is_assign, line_of, callee_name, call_args
 
 AXES = 'xyz'
 PAR = [{'x': 'y'}, {'y': 'z'}]                       # statement1->2, statement2->3 (parallel)
@@ -377,3 +377,81 @@ def run_files(ctx, rule, cfiles, only=None, skip=()):
             nfun += 1
             check_function(tu, fn, ctx.report, stats, rule)
     return stats, nfun
+
+
+AXIS_MEMBERS = {'x': ('', 'x'), 'y': ('', 'y'), 'z': ('', 'z'), 'vx': ('v', 'x'), 'vy': ('v', 'y'), 'vz': ('v', 'z'), 'ax': ('a', 'x'), 'ay': ('a', 'y'), 'az': ('a', 'z')}
+
+
+def _axis_neutral(e):
+    """(neutral text, set of axes) of an expression: member names x/y/z, vx.., ax.. replaced by a placeholder"""
+    axes = set()
+
+    def r(n):
+        n = strip(n)
+        k = n.get('kind')
+        if k == 'MemberExpr':
+            base = r(n['inner'][0])
+            nm = n['name']
+            if nm in AXIS_MEMBERS:
+                axes.add(AXIS_MEMBERS[nm][1])
+                return '%s.%s#' % (base, AXIS_MEMBERS[nm][0])
+            if len(nm) > 2 and nm[-2] == '_' and nm[-1] in 'xyz':
+                axes.add(nm[-1])
+                return '%s.%s#' % (base, nm[:-1])
+            return '%s.%s' % (base, nm)
+        if k in ('BinaryOperator',):
+            return '(%s%s%s)' % (r(n['inner'][0]), n['opcode'], r(n['inner'][1]))
+        if k == 'UnaryOperator':
+            return '%s(%s)' % (n.get('opcode'), r(n['inner'][0]))
+        if k == 'CallExpr':
+            return '%s(%s)' % (callee_name(n) or r(n['inner'][0]), ','.join(r(a) for a in call_args(n)))
+        if k == 'ArraySubscriptExpr':
+            return '%s[%s]' % (r(n['inner'][0]), r(n['inner'][1]))
+        if k == 'DeclRefExpr':
+            return n['referencedDecl']['name']
+        if k in ('IntegerLiteral', 'FloatingLiteral'):
+            return n.get('value', '?')
+        if k in ('CStyleCastExpr', 'ImplicitCastExpr', 'ParenExpr'):
+            return r(n['inner'][0])
+        return render(n)
+    return r(e), axes
+
+
+def check_condition_triples(cfile, fn, report, rule):
+    """Chains of || or && whose operands are the same test per axis (|p.x - c.x| > w/2 || |p.y - c.y| > w/2 || ...):
+    every test that occurs for two axes occurs for all three, exactly once each. Returns the number of chains examined."""
+    n = 0
+    seen = set()
+
+    def flatten(e, op):
+        e = strip(e)
+        if e.get('kind') == 'BinaryOperator' and e.get('opcode') == op:
+            return flatten(e['inner'][0], op) + flatten(e['inner'][1], op)
+        return [e]
+    for e in walk(cfront.body(fn)):
+        if e.get('kind') == 'BinaryOperator' and e.get('opcode') in ('||', '&&', '*') and id(e) not in seen:
+            ops = flatten(e, e['opcode'])
+            for x in walk(e):
+                if x.get('kind') == 'BinaryOperator' and x.get('opcode') == e['opcode']:
+                    seen.add(id(x))
+            groups = {}
+            for o in ops:
+                txt, axes = _axis_neutral(o)
+                if len(axes) == 1:
+                    groups.setdefault(txt, []).append((next(iter(axes)), o))
+            for txt, members in groups.items():
+                axes = sorted(a for a, _ in members)
+                if len(members) < 2 and not (len(ops) == 3 and len(groups) >= 2):
+                    continue
+                if len(members) < 2:
+                    continue
+                if e['opcode'] == '*' and len(members) != 3:
+                    continue            # products of two per-axis factors are areas; three are a volume or a count of cells
+                n += 1
+                if axes != ['x', 'y', 'z']:
+                    dup = sorted({a for a in axes if axes.count(a) > 1})
+                    miss = sorted(set('xyz') - set(axes))
+                    report(rule, '%s:axes:%s' % (fn['name'], txt[:40]), 'src/%s:%s %s' % (cfile, line_of(e), fn['name']),
+                           'the per-axis test %s is made for the axes %s: %s%s - the condition does not treat the three directions alike'
+                           % (txt.replace('#', '<axis>'), axes, ('%s twice' % ','.join(dup)) if dup else '', (' %s never' % ','.join(miss)) if miss else ''))
+    return n
